@@ -1,5 +1,7 @@
 import TLVerif.Tool.WalkLemmas
 import TLVerif.Tool.OutDirLemmas
+import TLVerif.Tool.CycleName
+import TLVerif.Generated.ToolCycleFacts
 import TLVerif.Generated.ToolMapsFacts
 import TLVerif.Generated.ToolMapsExpect
 /-!
@@ -106,6 +108,36 @@ theorem write_log_perm (fmt : Path → String → String) (fs : FS) (marker : Pa
   have hnd2 : (keys c₂).Nodup := hpk.nodup_iff.mp hnd
   exact (perm_ext_iff_of_nodup (write_written_nodup fmt fs c₁ marker hnd) (write_written_nodup fmt fs c₂ marker hnd2)).mpr
     (write_order_irrelevant fmt fs marker c₁ c₂ h hnd).2.2.1
+
+/-! ## Package names of merged import cycles (`--split-internal`)
+
+The order of `ins.Types` after cycles are merged depends on map iteration; the directory / package name
+`internal/cycle_<hash>` must not. -/
+
+theorem sortedElements_perm_invariant (t₁ t₂ : List String) (h : t₁ ~ t₂) : sortedElements t₁ = sortedElements t₂ := by
+  unfold sortedElements
+  apply Perm.eq_of_pairwise (le := fun a b => decide (a ≤ b) = true)
+  · intro a b _ _ hab hba
+    exact String.le_antisymm (by simpa using hab) (by simpa using hba)
+  · exact pairwise_mergeSort (fun a b c hab hbc => by
+      simp only [decide_eq_true_eq] at *; exact String.le_trans hab hbc)
+      (fun a b => by simp only [Bool.or_eq_true, decide_eq_true_eq]; exact String.le_total a b) t₁
+  · exact pairwise_mergeSort (fun a b c hab hbc => by
+      simp only [decide_eq_true_eq] at *; exact String.le_trans hab hbc)
+      (fun a b => by simp only [Bool.or_eq_true, decide_eq_true_eq]; exact String.le_total a b) t₂
+  · exact (mergeSort_perm t₁ _).trans (h.trans (mergeSort_perm t₂ _).symm)
+
+/-- **The cycle package name is a function of the set of types**: whatever order the merging left them in (any hash). -/
+theorem cycle_name_perm_invariant (hash : String → String) (t₁ t₂ : List String) (h : t₁ ~ t₂) :
+    cycleName hash t₁ = cycleName hash t₂ := by
+  unfold cycleName; rw [sortedElements_perm_invariant t₁ t₂ h]
+
+/-- T1: the generator still feeds `sortedElements()` (through `strings.Join`) into `sha1.Sum` when it names a cycle, and
+`sortedElements` still sorts what it collected (call-order facts regenerated from the source on every run). -/
+theorem cycle_hash_uses_sorted_elements :
+    isInfixB ["Sum", "Join", "sortedElements", "EncodeToString"] TLVerif.Facts.ToolCycle.gengoGenerateCodeCalls = true ∧
+    TLVerif.Facts.ToolCycle.gengoGenerateCodeCalls.count "Sum" = 1 ∧
+    TLVerif.Facts.ToolCycle.gengoSortedElementsCalls = ["append", "Sort"] := by decide
 
 /-! ## T1: census of `range`-over-map sites in the generator packages
 
